@@ -9,7 +9,9 @@ mod verif_kani_svob {
     fn mk<const W: usize>(tail_clear: bool) -> SimpleVob {
         let data: [u32; W] = kani::any();
         let size: usize = kani::any();
-        kani::assume(size <= 32 * W && (W == 0 || size > 32 * (W - 1)));
+        // size ranges over the last word AND the boundary just below it (alloc_token_set allocates one spare word
+        // exactly when the vocabulary size is a multiple of 32)
+        kani::assume(size <= 32 * W && (W == 0 || size >= 32 * (W - 1)));
         let v = SimpleVob { data: data.to_vec(), size };
         if tail_clear {
             // type invariant of masks: no bit at or above `size`
@@ -20,6 +22,7 @@ mod verif_kani_svob {
             let keep = size - 32 * last;
             let m: u32 = if keep >= 32 { !0 } else { (1u32 << keep) - 1 };
             kani::assume(v.data[last] & !m == 0);
+            let _ = i;
         }
         v
     }
